@@ -7,9 +7,18 @@ the flags extracted from the Rust source, `Gen.cfg`) and, independently, on the 
   results   : `5`, `-7/3`, `#true`, `(4 1)`, `err:div0`, `err:type`, `err:expt0`, `panic`,
               `unmodelled` (model only), `undef` (spec only: the property does not say)
   `c10driver --cfg pinned|repaired` overrides the configuration (used by the negative checks).
+
+  further requests (model functions of NumStr.lean / Shapes.lean):
+    `tostrr A R`, `roundtripr A R`   number->string / string->number with radix R
+    `s2n TEXT [R]`                   string->number on an arbitrary text (no blanks)
+    `addn|subn|muln|divn A B C ...`  the variadic primitives on 0..n operands (the generic call AND every op code
+                                     that stands for it must agree: the model line is `generic`, `op:<NAME>` checks
+                                     `runOp` of every op code applicable to the operand list against it)
+    `len|ltn|gtn|gen A B C ...`      the order primitives on 1..n operands
 -/
 import SteelVerif.C10.Model
 import SteelVerif.C10.GenArms
+import SteelVerif.C10.Shapes
 namespace SteelVerif.C10
 
 def parseInt? (s : String) : Option Int :=
@@ -66,7 +75,7 @@ def runModel (cfg : Cfg) (op : String) (args : List Num) : String :=
     match b with
     | .fix e => if e.natAbs ≤ expLimit then showRes Num.show (expt cfg a b) else "unmodelled"
     | .big _ => showRes Num.show (expt cfg a b)
-    | _ => "unmodelled"
+    | _ => showRes Num.show (expt cfg a b)
   | "eq", [a, b] => showBool (numEq a b)
   | "lt", [a, b] => showBool (numLt a b)
   | "gt", [a, b] => showBool (numGt a b)
@@ -82,6 +91,12 @@ def runModel (cfg : Cfg) (op : String) (args : List Num) : String :=
   | "roundtrip", [a] => a.show
   | "tostr", [a] => "\"" ++ a.show ++ "\""
   -- specialised paths, reachable when the right operand is a small non-negative literal
+  | "tostrr", [a, .fix r] => showRes (fun t => "\"" ++ String.ofList t ++ "\"") (numberToStringPrim (some r) a)
+  | "roundtripr", [a, .fix r] =>
+    (match numberToStringPrim (some r) a with
+     | .ok t => showRes (fun o => match o with | none => "#false" | some v => v.show) (stringToNumberPrim (some r) t)
+     | .err e => showErr e
+     | .panic => "panic")
   | "subimm", [a, .fix r] => showRes Num.show (subImmediate a r)
   | "addimm", [a, .fix r] => showRes Num.show (addImmediate a r)
   | "lteimm", [a, .fix r] => showBool (lteImmediate a r)
@@ -108,6 +123,7 @@ def runSpec (op : String) (args : List Rat) : String :=
       if a = 0 && b.num < 0 then "err:expt0"
       else if a = 0 then (if b.num = 0 then "1" else "0")
       else if a = 1 then "1"
+      else if a = -1 then (if b.num.natAbs % 2 = 0 then "1" else "-1")
       else if b.num.natAbs ≤ expLimit then showRat (a ^ b.num)
       else "undef"
     else "undef"
@@ -127,20 +143,94 @@ def runSpec (op : String) (args : List Rat) : String :=
       s!"({s} {a.num.toNat - s * s})"
     else "undef"
   | "id", [a] | "roundtrip", [a] => showRat a
+  | "roundtripr", [a, r] => if 2 ≤ r ∧ r ≤ 16 ∧ r.den = 1 then showRat a else "undef"
+  | "tostrr", [a, r] =>
+    if 2 ≤ r ∧ r ≤ 16 ∧ r.den = 1 then
+      let b := r.num.toNat
+      let int (n : Int) : String := (if n < 0 then "-" else "") ++ String.ofList (Nat.toDigits b n.natAbs)
+      "\"" ++ (if a.den = 1 then int a.num else int a.num ++ "/" ++ int a.den) ++ "\""
+    else "undef"
   | "tostr", [a] => "\"" ++ showRat a ++ "\""
   | _, _ => "bad"
+
+def showVal : Val → String
+  | .num n => n.show
+  | .bool b => showBool b
+
+/-- variadic requests: the generic call, and every op code that stands for the primitive and accepts this operand list
+must agree with it (`!op:<NAME>=<result>` is appended for an op code that does not). -/
+def runVariadic (cfg : Cfg) (sym : Sym) (args : List Num) : String :=
+  let g := generic cfg sym args
+  let base := showRes showVal g
+  let bad := Op.all.filterMap (fun o =>
+    if o.sym == sym then
+      let opArgs := match o, args with
+        | .SUBREGISTER1, [l, .fix 1] => some [l]
+        | .SUBREGISTER1, _ => none
+        | _, xs => some xs
+      match opArgs with
+      | none => none
+      | some oa =>
+        match o.genericArgs oa with
+        | some ga => if ga == args && runOp cfg o oa != g then some s!"!op:{o.name}={showRes showVal (runOp cfg o oa)}" else none
+        | none => none
+    else none)
+  let fold := match sym with
+    | .plus | .minus | .star | .slash =>
+      if constFold cfg (registeredFn sym) args != g then s!"!fold={showRes showVal (constFold cfg (registeredFn sym) args)}" else ""
+    | _ => ""
+  base ++ String.join bad ++ fold
+
+def specVariadic (sym : Sym) (args : List Rat) : String :=
+  let rec chain (p : Rat → Rat → Bool) : List Rat → Bool
+    | a :: b :: rest => p a b && chain p (b :: rest)
+    | _ => true
+  match sym, args with
+  | .plus, xs => showRat (xs.foldl (· + ·) 0)
+  | .star, xs => showRat (xs.foldl (· * ·) 1)
+  | .minus, [] => "err:arity"
+  | .minus, [x] => showRat (-x)
+  | .minus, x :: ys => showRat (x - ys.foldl (· + ·) 0)
+  | .slash, [] => "err:arity"
+  | .slash, [x] => if x = 0 then "err:div0" else showRat x⁻¹
+  | .slash, x :: ys => if ys.foldl (· * ·) 1 = 0 then "err:div0" else showRat (x / ys.foldl (· * ·) 1)
+  | _, [] => "err:arity"
+  | .le, xs => showBool (chain (fun a b => decide (a ≤ b)) xs)
+  | .lt, xs => showBool (chain (fun a b => decide (a < b)) xs)
+  | .gt, xs => showBool (chain (fun a b => decide (b < a)) xs)
+  | .ge, xs => showBool (chain (fun a b => decide (b ≤ a)) xs)
+  | .numEq, [a, b] => showBool (a == b)
+  | .numEq, _ => "undef"
+
+def variadicSym : String → Option Sym
+  | "addn" => some .plus | "subn" => some .minus | "muln" => some .star | "divn" => some .slash
+  | "len" => some .le | "ltn" => some .lt | "gtn" => some .gt | "gen" => some .ge | "eqn" => some .numEq
+  | _ => none
+
+def handleS2n (rest : List String) : String :=
+  match rest with
+  | [t] => showRes (fun o => match o with | none => "#false" | some v => v.show) (stringToNumberPrim none t.toList) ++ "\tundef"
+  | [t, r] =>
+    match parseInt? r with
+    | some r => showRes (fun o => match o with | none => "#false" | some v => v.show) (stringToNumberPrim (some r) t.toList) ++ "\tundef"
+    | none => "bad\tbad"
+  | _ => "bad\tbad"
 
 def handle (cfg : Cfg) (line : String) : String :=
   let toks := (line.trimAscii.toString.splitOn " ").filter (· ≠ "")
   match toks with
   | [] => ""
+  | "s2n" :: rest => handleS2n rest
   | op :: rest =>
     match rest.mapM parseOperand with
     | none => "bad\tbad"
     | some ps =>
       match ps.mapM operandNum with
       | none => "bad\tbad"
-      | some nums => runModel cfg op nums ++ "\t" ++ runSpec op (ps.map operandRat)
+      | some nums =>
+        match variadicSym op with
+        | some sym => runVariadic cfg sym nums ++ "\t" ++ specVariadic sym (ps.map operandRat)
+        | none => runModel cfg op nums ++ "\t" ++ runSpec op (ps.map operandRat)
 
 partial def loop (cfg : Cfg) (h : IO.FS.Stream) (out : IO.FS.Stream) : IO Unit := do
   let line ← h.getLine
